@@ -309,6 +309,46 @@ def repeated_runs(_):
   return bad
 
 
+def plug_fault_runs(_):
+  """a run that ends because a plug constructor raises must not change what later runs see
+  ("every run ... producing a record that depends only on that run"; "never mutates the ... plugs")"""
+  sys.argv = sys.argv[:1]
+  import openhtf as htf
+  from openhtf.core import base_plugs
+  bad = []
+  state = dict(fail=False)
+
+  class FlakyPlug(base_plugs.BasePlug):
+    def __init__(self):
+      if state['fail']:
+        raise RuntimeError('plug constructor raises in this run')
+
+  @htf.plug(fp=FlakyPlug)
+  def ph(test, fp):
+    pass
+
+  def trig():
+    return 'dut'
+  logger0 = FlakyPlug.logger
+  outcomes = []
+  for where in ('phases', 'trigger'):
+    t = htf.Test(ph) if where == 'phases' else htf.Test(htf.PhaseOptions(name='other')(lambda test: None))
+    start = trig if where == 'phases' else htf.plug(fp=FlakyPlug)(lambda test, fp: None)
+    recs = []
+    t.add_output_callbacks(recs.append)
+    for fail in (False, True, False):
+      state['fail'] = fail
+      t.execute(test_start=start)
+      state['fail'] = False
+      if FlakyPlug.logger is not logger0:
+        bad.append('a run in which a plug constructor raised changed the plug class it was declared with')
+        FlakyPlug.logger = logger0
+    outcomes.append([r.outcome.name for r in recs])
+  if any(o != ['PASS', 'ERROR', 'PASS'] for o in outcomes):
+    bad.append('the run after one whose plug constructor raised does not behave like the run before it (%s)' % outcomes)
+  return bad
+
+
 def concurrent_runs(seeds):
   sys.argv = sys.argv[:1]
   import openhtf as htf
@@ -409,6 +449,9 @@ def main(chk):
     chk.log('%d derive/decorate/execute histories replayed' % chk.traces)
     for sig in pool.apply(repeated_runs, (0,)):
       chk.violation(sig, {})
+    for sig in pool.apply(plug_fault_runs, (0,)):
+      chk.violation(sig, {})
+    chk.traces += 6
     ns = 42 if quick else 700
     seeds = [chk.seed * 1000 + i for i in range(ns)]
     for n, bad in pool.map(concurrent_runs, [seeds[k::14] for k in range(14)]):
